@@ -64,17 +64,25 @@ def floatValueOk (env : Env) (f x : PyFloat) (prec : Option Nat) : Bool :=
   | none => isclose env f x
   | some pr => eqAtPrecision env f x pr
 
+/-- `visit_str` after the value and pattern checks: lengths, substring, alphabet accumulate -/
+def strTail (L : LenP) (alphabet substr : Option Str) (s : Str) (p : Path) (a : PyVal) : List Err :=
+  lenErrs L s.length p a ++
+  (match substr with | some sub => if isInfixB sub s then [] else [Err.substr p a sub] | none => []) ++
+  (match alphabet with | some al => if s.all (fun c => al.contains c) then [] else [Err.alphabet p a al] | none => [])
+
+/-- the pattern check returns alone when it fails -/
+def strRest (env : Env) (L : LenP) (alphabet substr : Option Str) (pattern : Option Pat)
+    (s : Str) (p : Path) (a : PyVal) : List Err :=
+  match pattern with
+  | some pt => if env.rxSearch pt.id s then strTail L alphabet substr s p a else [Err.regex p a pt.id]
+  | none => strTail L alphabet substr s p a
+
+/-- the value check returns alone when it fails -/
 def strErrs (env : Env) (v : Option Str) (L : LenP) (alphabet substr : Option Str)
     (pattern : Option Pat) (s : Str) (p : Path) (a : PyVal) : List Err :=
-  match (match v with | some x => if s ≠ x then some (Err.value p a (.str x)) else none | none => none) with
-  | some e => [e]
-  | none =>
-    match (match pattern with | some pt => if env.rxSearch pt.id s then none else some (Err.regex p a pt.id) | none => none) with
-    | some e => [e]
-    | none =>
-      lenErrs L s.length p a ++
-      (match substr with | some sub => if isInfixB sub s then [] else [Err.substr p a sub] | none => []) ++
-      (match alphabet with | some al => if s.all (fun c => al.contains c) then [] else [Err.alphabet p a al] | none => [])
+  match v with
+  | some x => if s ≠ x then [Err.value p a (.str x)] else strRest env L alphabet substr pattern s p a
+  | none => strRest env L alphabet substr pattern s p a
 
 /-- All non-recursive visitors (`visit_none … visit_date`), pure. -/
 def validateScalar (env : Env) (k : ScalarS) (a : PyVal) (p : Path) : List Err :=
